@@ -121,7 +121,10 @@ class C13(core.Prop):
                 except re.error as e:
                     fail('does-not-compile', 'tag=%s: %r: %s' % (tag, r, e))
                     continue
-                if not (r.startswith('^') and r.endswith('$')):
+                # anchored: starts with ^ and ends with a $ that is not escaped (an even number of backslashes before it)
+                body = r[:-1] if r.endswith('$') else r
+                nback = len(body) - len(body.rstrip('\\'))
+                if not (r.startswith('^') and r.endswith('$') and nback % 2 == 0):
                     fail('not-anchored', 'tag=%s: %r' % (tag, r))
                 if not any(re.fullmatch(cr, s) for s in case['examples'] if s is not None):
                     dialect = case['opts'].get('dialect', 'portable')
